@@ -315,4 +315,252 @@ theorem bwd_loop (ops : NumOps F) (w h : Int) (body : St F → Ctl (St F) (Bool 
       exact ⟨true, _, by rw [whileLoop_succ, hend _ _ _ (by omega)]⟩
     · intro hnone; rw [hp] at hnone; cases hnone
 
+/-! ### the decisions depend on `toInt` only -/
+
+section sim
+variable {G : Type} (o1 : NumOps F) (o2 : NumOps G)
+
+/-- the two number types agree on the pixel index of the three values the function writes -/
+structure WritesAgree (w h : Int) : Prop where
+  zero : o1.toInt (o1.ofInt 0) = o2.toInt (o2.ofInt 0)
+  wid : o1.toInt (o1.ofInt (w - 1)) = o2.toInt (o2.ofInt (w - 1))
+  hei : o1.toInt (o1.ofInt (h - 1)) = o2.toInt (o2.ofInt (h - 1))
+
+theorem beyondF_sim (w h : Int) {x y : F} {x' y' : G} (hx : o1.toInt x = o2.toInt x') (hy : o1.toInt y = o2.toInt y') :
+    beyondF o1 w h x y = beyondF o2 w h x' y' := by
+  simp [beyondF, hx, hy]
+
+theorem nudgeCoordF_sim (n : Int) (h0 : o1.toInt (o1.ofInt 0) = o2.toInt (o2.ofInt 0))
+    (hn : o1.toInt (o1.ofInt (n - 1)) = o2.toInt (o2.ofInt (n - 1))) {x : F} {x' : G} (hx : o1.toInt x = o2.toInt x') :
+    (nudgeCoordF o1 n x).2 = (nudgeCoordF o2 n x').2 ∧
+      o1.toInt (nudgeCoordF o1 n x).1 = o2.toInt (nudgeCoordF o2 n x').1 := by
+  unfold nudgeCoordF
+  rw [hx]
+  by_cases c1 : o2.toInt x' = -1
+  · simp [c1, h0]
+  · by_cases c2 : o2.toInt x' = n
+    · rw [if_neg c1, if_pos c2, if_neg c1, if_pos c2]; exact ⟨rfl, hn⟩
+    · rw [if_neg c1, if_neg c2, if_neg c1, if_neg c2]; exact ⟨rfl, hx⟩
+
+theorem passFwdF_sim (w h : Int) (H : WritesAgree o1 o2 w h) : ∀ (l : List F) (l' : List G),
+    l.map o1.toInt = l'.map o2.toInt →
+      (passFwdF o1 w h l).map (List.map o1.toInt) = (passFwdF o2 w h l').map (List.map o2.toInt) := by
+  intro l
+  induction l using passFwdF.induct (ops := o1) (w := w) (h := h) with
+  | case1 x y rest hb =>
+    intro l' hl
+    match l', hl with
+    | [_], hl => simp at hl
+    | x' :: y' :: rest', hl =>
+      simp only [List.map_cons, List.cons.injEq] at hl
+      have hb' : beyondF o2 w h x' y' = true := by rw [← beyondF_sim o1 o2 w h hl.1 hl.2.1]; exact hb
+      simp [passFwdF, hb, hb']
+  | case2 x y rest hb hn ih =>
+    intro l' hl
+    match l', hl with
+    | [_], hl => simp at hl
+    | x' :: y' :: rest', hl =>
+      simp only [List.map_cons, List.cons.injEq] at hl
+      have hb' : ¬ beyondF o2 w h x' y' = true := by rw [← beyondF_sim o1 o2 w h hl.1 hl.2.1]; exact hb
+      have cx := nudgeCoordF_sim o1 o2 w H.zero H.wid hl.1
+      have cy := nudgeCoordF_sim o1 o2 h H.zero H.hei hl.2.1
+      have hn' : ((nudgeCoordF o2 w x').2 || (nudgeCoordF o2 h y').2) = true := by rw [← cx.1, ← cy.1]; exact hn
+      have := ih rest' hl.2.2
+      simp only [passFwdF, hb, hb', hn, hn', if_true]
+      cases h1 : passFwdF o1 w h rest <;> cases h2 : passFwdF o2 w h rest' <;> simp [h1, h2] at this ⊢
+      exact ⟨cx.2, cy.2, this⟩
+  | case3 x y rest hb hn =>
+    intro l' hl
+    match l', hl with
+    | [_], hl => simp at hl
+    | x' :: y' :: rest', hl0 =>
+      have hl := hl0
+      simp only [List.map_cons, List.cons.injEq] at hl
+      have hb' : ¬ beyondF o2 w h x' y' = true := by rw [← beyondF_sim o1 o2 w h hl.1 hl.2.1]; exact hb
+      have cx := nudgeCoordF_sim o1 o2 w H.zero H.wid hl.1
+      have cy := nudgeCoordF_sim o1 o2 h H.zero H.hei hl.2.1
+      have hn' : ¬ ((nudgeCoordF o2 w x').2 || (nudgeCoordF o2 h y').2) = true := by rw [← cx.1, ← cy.1]; exact hn
+      simp only [passFwdF, hb, hb', hn, hn']
+      exact congrArg some hl0
+  | case4 l hl =>
+    intro l' hm
+    have hp : passFwdF o1 w h l = some l := by
+      unfold passFwdF
+      split
+      · exact absurd rfl (hl _ _ _)
+      · rfl
+    have hp' : passFwdF o2 w h l' = some l' := by
+      unfold passFwdF
+      split
+      · rename_i a b t
+        exfalso
+        match l, hl, hm with
+        | [], _, hm => simp at hm
+        | [_], _, hm => simp at hm
+        | a :: b :: t, hl, _ => exact hl a b t rfl
+      · rfl
+    rw [hp, hp']; simp [hm]
+
+theorem passBwdRevF_sim (w h : Int) (H : WritesAgree o1 o2 w h) : ∀ (l : List F) (l' : List G),
+    l.map o1.toInt = l'.map o2.toInt →
+      (passBwdRevF o1 w h l).map (List.map o1.toInt) = (passBwdRevF o2 w h l').map (List.map o2.toInt) := by
+  intro l
+  induction l using passBwdRevF.induct (ops := o1) (w := w) (h := h) with
+  | case1 y x rest hb =>
+    intro l' hl
+    match l', hl with
+    | [_], hl => simp at hl
+    | y' :: x' :: rest', hl =>
+      simp only [List.map_cons, List.cons.injEq] at hl
+      have hb' : beyondF o2 w h x' y' = true := by rw [← beyondF_sim o1 o2 w h hl.2.1 hl.1]; exact hb
+      simp [passBwdRevF, hb, hb']
+  | case2 y x rest hb hn ih =>
+    intro l' hl
+    match l', hl with
+    | [_], hl => simp at hl
+    | y' :: x' :: rest', hl =>
+      simp only [List.map_cons, List.cons.injEq] at hl
+      have hb' : ¬ beyondF o2 w h x' y' = true := by rw [← beyondF_sim o1 o2 w h hl.2.1 hl.1]; exact hb
+      have cx := nudgeCoordF_sim o1 o2 w H.zero H.wid hl.2.1
+      have cy := nudgeCoordF_sim o1 o2 h H.zero H.hei hl.1
+      have hn' : ((nudgeCoordF o2 w x').2 || (nudgeCoordF o2 h y').2) = true := by rw [← cx.1, ← cy.1]; exact hn
+      have := ih rest' hl.2.2
+      simp only [passBwdRevF, hb, hb', hn, hn', if_true]
+      cases h1 : passBwdRevF o1 w h rest <;> cases h2 : passBwdRevF o2 w h rest' <;> simp [h1, h2] at this ⊢
+      exact ⟨cy.2, cx.2, this⟩
+  | case3 y x rest hb hn =>
+    intro l' hl
+    match l', hl with
+    | [_], hl => simp at hl
+    | y' :: x' :: rest', hl0 =>
+      have hl := hl0
+      simp only [List.map_cons, List.cons.injEq] at hl
+      have hb' : ¬ beyondF o2 w h x' y' = true := by rw [← beyondF_sim o1 o2 w h hl.2.1 hl.1]; exact hb
+      have cx := nudgeCoordF_sim o1 o2 w H.zero H.wid hl.2.1
+      have cy := nudgeCoordF_sim o1 o2 h H.zero H.hei hl.1
+      have hn' : ¬ ((nudgeCoordF o2 w x').2 || (nudgeCoordF o2 h y').2) = true := by rw [← cx.1, ← cy.1]; exact hn
+      simp only [passBwdRevF, hb, hb', hn, hn']
+      exact congrArg some hl0
+  | case4 l hl =>
+    intro l' hm
+    have hp : passBwdRevF o1 w h l = some l := by
+      unfold passBwdRevF
+      split
+      · exact absurd rfl (hl _ _ _)
+      · rfl
+    have hp' : passBwdRevF o2 w h l' = some l' := by
+      unfold passBwdRevF
+      split
+      · rename_i a b t
+        exfalso
+        match l, hl, hm with
+        | [], _, hm => simp at hm
+        | [_], _, hm => simp at hm
+        | a :: b :: t, hl, _ => exact hl a b t rfl
+      · rfl
+    rw [hp, hp']; simp [hm]
+
+/-- **The decisions depend on `int(x)` only.**  Two runs over different number types whose inputs have the same pixel
+    indices either both answer NotFound or both succeed with slices that have the same pixel indices again. -/
+theorem nudgeSpec_sim (w h : Int) (H : WritesAgree o1 o2 w h) (l : List F) (l' : List G)
+    (hl : l.map o1.toInt = l'.map o2.toInt) :
+    (nudgeSpec o1 w h l).map (List.map o1.toInt) = (nudgeSpec o2 w h l').map (List.map o2.toInt) := by
+  have h1 := passFwdF_sim o1 o2 w h H l l' hl
+  unfold nudgeSpec
+  cases e1 : passFwdF o1 w h l <;> cases e2 : passFwdF o2 w h l' <;> simp [e1, e2] at h1 ⊢
+  rename_i p1 p2
+  have h2 := passBwdRevF_sim o1 o2 w h H p1.reverse p2.reverse (by simp [h1])
+  cases e3 : passBwdRevF o1 w h p1.reverse <;> cases e4 : passBwdRevF o2 w h p2.reverse <;> simp [e3, e4] at h2 ⊢
+  simp [h2]
+
+end sim
+
+/-! ### over exact rationals the specification is the hand-written model -/
+
+section rat
+open Gzx.GridSampler
+
+theorem beyondF_rat (w h : Int) (p : Pt) : beyondF ratOps w h p.1 p.2 = beyond w h p := by
+  rfl
+
+theorem nudgeCoordF_rat (n : Int) (x : Rat) : nudgeCoordF ratOps n x = nudgeCoord n (n - 1) x := by
+  unfold nudgeCoordF nudgeCoord
+  simp [ratOps, truncRat, trunc]
+
+/-- a list of points as the reversed interleaved slice `…, y1, x1, y0, x0` read from the end -/
+def revPairs : List Pt → List Rat
+  | [] => []
+  | p :: ps => p.2 :: p.1 :: revPairs ps
+
+theorem revPairs_append (a b : List Pt) : revPairs (a ++ b) = revPairs a ++ revPairs b := by
+  induction a with
+  | nil => rfl
+  | cons p a ih => simp [revPairs, ih]
+
+theorem fromPairs_reverse (qs : List Pt) : (fromPairs qs).reverse = revPairs qs.reverse := by
+  induction qs with
+  | nil => rfl
+  | cons p qs ih => simp [fromPairs, revPairs_append, revPairs, ih]
+
+/-- `Res` of the model as the `Option` of the specification -/
+def optOf : Res (List Pt) → (List Pt → List Rat) → Option (List Rat)
+  | .ok r, f => some (f r)
+  | .error _, _ => none
+
+theorem passFwdF_rat (w h : Int) : ∀ ps : List Pt, passFwdF ratOps w h (fromPairs ps) = optOf (nudgePass w h ps) fromPairs := by
+  intro ps
+  induction ps with
+  | nil => rfl
+  | cons p ps ih =>
+    simp only [fromPairs, passFwdF, nudgePass, nudgePassG, beyondF_rat, nudgeCoordF_rat]
+    by_cases hb : beyond w h p = true
+    · simp [hb, optOf]
+    · simp only [hb, if_false, Bool.false_eq_true]
+      by_cases hn : ((nudgeCoord w (w - 1) p.1).2 || (nudgeCoord h (h - 1) p.2).2) = true
+      · simp only [hn, if_true]
+        rw [ih]
+        unfold nudgePass
+        cases nudgePassG w h (h - 1) ps <;> simp [optOf, fromPairs]
+      · simp only [hn, if_false, Bool.false_eq_true]
+        simp [optOf, fromPairs]
+
+theorem passBwdRevF_rat (w h : Int) : ∀ qs : List Pt, passBwdRevF ratOps w h (revPairs qs) = optOf (nudgePass w h qs) revPairs := by
+  intro ps
+  induction ps with
+  | nil => rfl
+  | cons p ps ih =>
+    simp only [revPairs, passBwdRevF, nudgePass, nudgePassG, beyondF_rat, nudgeCoordF_rat]
+    by_cases hb : beyond w h p = true
+    · simp [hb, optOf]
+    · simp only [hb, if_false, Bool.false_eq_true]
+      by_cases hn : ((nudgeCoord w (w - 1) p.1).2 || (nudgeCoord h (h - 1) p.2).2) = true
+      · simp only [hn, if_true]
+        rw [ih]
+        unfold nudgePass
+        cases nudgePassG w h (h - 1) ps <;> simp [optOf, revPairs]
+      · simp only [hn, if_false, Bool.false_eq_true]
+        simp [optOf, revPairs]
+
+/-- **Over exact rationals the specification is the model**: on an even-length slice (the points `ps` interleaved)
+    `nudgeSpec` is `GridSampler.checkAndNudge` — the function that `nudge_symmetric`, `nudge_rejects_beyond`,
+    `nudge_accepts_within` … of Properties/C19.lean are about. -/
+theorem nudgeSpec_rat_even (w h : Int) (ps : List Pt) :
+    nudgeSpec ratOps w h (fromPairs ps) = optOf (checkAndNudge w h ps) fromPairs := by
+  unfold nudgeSpec checkAndNudge
+  rw [passFwdF_rat]
+  cases h1 : nudgePass w h ps with
+  | error e => rfl
+  | ok ps1 =>
+    simp only [optOf]
+    rw [fromPairs_reverse, passBwdRevF_rat]
+    cases h2 : nudgePass w h ps1.reverse with
+    | error e => rfl
+    | ok ps2 =>
+      simp only [optOf]
+      have := fromPairs_reverse ps2.reverse
+      rw [List.reverse_reverse] at this
+      rw [← this, List.reverse_reverse]
+
+end rat
+
 end Gzx.K19
